@@ -899,7 +899,14 @@ def notes_for_report(rep):
              "increasing timings; retarded/advanced measures compare node numbers), so reordering the "
              "samples is a different input, not a relabelling; its inherited Network measures are "
              "covered by feeding a visibility-graph adjacency to Network/InteractingNetworks")
-    rep.skip("directed networks: " + "; ".join("%s (%s)" % (k, v) for k, v in sorted(UNDIRECTED_ONLY.items())))
+    rep.skip("not run on directed networks: " + "; ".join(
+        "%s (%s)" % (k, v) for k, v in sorted(UNDIRECTED_ONLY.items())))
+    rep.skip("clause 'relabel-directed' = same contract on a directed input; known numbering-dependent "
+             "there: " + "; ".join("%s (%s)" % (k, v) for k, v in sorted(DIRECTED_FRAGILE.items())))
+    rep.skip("clause 'relabel-disconnected-twinness': nsi_arenas_betweenness(stopping_mode='twinness') "
+             "indexes the whole network's twinness matrix with component-local indices; clause "
+             "'relabel-binning': GeoNetwork.geographical_distribution bins the maximal element by "
+             "int((n_bins-1)*scaling*(max-min)) in float32, which is n_bins-1 or n_bins-2 by rounding")
     rep.skip("eigenvector centralities on disconnected networks: dominant eigenvector not unique")
     rep.skip("static/class methods (generators, Load, helpers) are not instance measures; "
              "size limits for slow measures: %s" % json.dumps(SLOW, sort_keys=True))
